@@ -61,9 +61,46 @@ def showPB : PB → String
   | PB.rejectPartSet => "reject-partset"
   | PB.panic => "panic"
 
-def step (s : Unit) (toks : List String) : Unit × String :=
+/-- `imp` items: `k<key>` (precommit of key for the right target), `k<key>h` (signed height+1),
+    `k<key>b` (signed the id of the block before), `k<key>r` (signed round+1) -/
+def parseImpItem (h round : Nat) (tok : String) : Option Sig :=
+  match tok.toList with
+  | 'k' :: rest =>
+    let digits := rest.takeWhile Char.isDigit
+    let suffix := rest.dropWhile Char.isDigit
+    match (String.ofList digits).toNat? with
+    | some k =>
+      if suffix = [] then some { key := k, height := h, blockId := h, round := round }
+      else if suffix = ['h'] then some { key := k, height := h + 1, blockId := h, round := round }
+      else if suffix = ['b'] then some { key := k, height := h, blockId := h - 1, round := round }
+      else if suffix = ['r'] then some { key := k, height := h, blockId := h, round := round + 1 }
+      else none
+    | none => none
+  | _ => none
+
+def parseSet (s : String) : Option (List Nat) :=
+  if s == "-" then some [] else (s.splitOn ".").mapM (fun x => x.toNat?)
+
+def step (s : List (List Nat)) (toks : List String) : List (List Nat) × String :=
   match toks with
-  | ["reset"] => (s, "ok")
+  | ["reset"] => ([], "ok")
+  | ["chain", a, b, c, d] =>
+    match parseSet a, parseSet b, parseSet c, parseSet d with
+    | some a, some b, some c, some d =>
+      -- the change requested in block k shows in NextValidators(block k+1): heights 0..3 have A, A, B, C
+      if a.isEmpty ∨ b.isEmpty ∨ c.isEmpty ∨ d.isEmpty then (s, "bad-op") else ([a, a, b, c], "ok")
+    | _, _, _, _ => (s, "bad-op")
+  | "imp" :: round :: items =>
+    match round.toNat?, items.mapM (parseImpItem 3 ((round.toNat?).getD 0)) with
+    | some round, some sigs =>
+      if s.length ≠ 4 then (s, "bad-op") else
+      -- candidate block 4 on parent 3: NextValidators of heights 0..3 are the four sets
+      match verifyProofForLast (fun k => s.getD k []) id 3 round sigs with
+      | Res.ok _ => (s, "accept")
+      | Res.okNil => (s, "accept")
+      | Res.reject => (s, "reject:cert")
+      | Res.panic => (s, "panic")
+    | _, _ => (s, "bad-op")
   | "vb" :: mode :: n :: _r :: items =>
     match n.toNat? with
     | some n =>
@@ -93,4 +130,4 @@ def step (s : Unit) (toks : List String) : Unit × String :=
   | _ => (s, "bad-op")
 
 end Goloop.Driver.C05
-def main : IO Unit := Goloop.Proto.run Goloop.Driver.C05.step ()
+def main : IO Unit := Goloop.Proto.run Goloop.Driver.C05.step []
